@@ -25,6 +25,10 @@ pub struct Case {
     pub sample_seed: u32,
     /// restrict to one cut (set in replay files written by hand; the generator leaves it None)
     pub only_cut: Option<u32>,
+    /// BGZF based files: an empty member (EOF marker block) inserted at the member boundary
+    /// selected per-mille before cutting — the valid `cat a.bgz b.bgz` shape
+    #[serde(default)]
+    pub empty_member: Option<u16>,
 }
 
 pub const DRIVERS: &[&str] = &["bgzf", "bam", "bam-eager", "bam-raw", "sam.gz", "vcf.gz", "bcf", "bcf-raw", "cram", "bai", "csi", "tabix", "gzi", "fai", "crai"];
@@ -183,6 +187,10 @@ fn check(drv: &dyn Driver, c: &Case) -> Verdict {
         Ok(b) => b,
         Err(e) => return fail1(format!("c13.baseline-write-error:{name}"), format!("writing the generated document failed: {e}")),
     };
+    let file = match (drv.is_bgzf(), c.empty_member) {
+        (true, Some(sel)) => bgzf_walk::with_empty_member(&file, sel).unwrap_or(file),
+        _ => file,
+    };
     let data = Arc::new(file.clone());
     let opts = ReadOpts { vpos: false, ..ReadOpts::default() };
     let (full, _) = drv.read(&data, &Delivery::Plain, &c.doc, &opts);
@@ -308,7 +316,7 @@ pub fn property() -> Property {
                     } else {
                         d.doc(tier)
                     };
-                    (doc, any::<u32>()).prop_map(|(doc, sample_seed)| Case { doc, sample_seed, only_cut: None }).boxed()
+                    (doc, any::<u32>(), proptest::option::weighted(0.25, 0u16..=1000)).prop_map(|(doc, sample_seed, empty_member)| Case { doc, sample_seed, only_cut: None, empty_member }).boxed()
                 }),
                 check: Box::new(move |c| {
                     let d = drivers::by_name(dname).unwrap();
